@@ -14,6 +14,8 @@ mod scen_agg;
 mod scen_emf;
 mod scen_global;
 mod scen_queue;
+mod scen_sample;
+mod scen_time;
 mod scen_uow;
 
 fn main() {
